@@ -777,6 +777,9 @@ class Frame:
         raise Unsupported("comparison %s of %r and %r" % (type(op).__name__, a, b))
 
     def equals(self, a, b):
+        for x, y in ((a, b), (b, a)):
+            if hasattr(x, "abs_eq"):
+                return x.abs_eq(y)
         if is_strlike(a) and is_strlike(b):
             return str_eq(a, b)
         if isinstance(a, SymInt) or isinstance(b, SymInt):
